@@ -113,13 +113,16 @@ fn run_tree_paths<Tr: TreeApi>(rep: &mut Rep, spec: &SeqSpec, budget: usize) {
     let mut v = data.clone();
     v.push(<Tr::Item as Sym>::from_u128(m.syms.first().copied().unwrap_or(0)));
     neighbours.push(("one element appended", v));
-    for (what, v) in neighbours {
+    for (ni, (what, v)) in neighbours.into_iter().enumerate() {
         let path = rr.below(3) as u8;
         if let Some(t2) = guarded_build::<Tr>(rep, &v, path) {
             chk!(rep, "different sequence != ", (what, n), Exp::Is(false), &t2 == t);
             chk!(rep, "different sequence != (reversed)", (what, n), Exp::Is(false), t == &t2);
-            // Clone::clone_from onto a value that held something else (shorter, longer, deeper, shallower)
-            clone_from_probe::<Tr>(rep, t2, t, &m, &rng, &o, built[0].2, what);
+            // Clone::clone_from onto a value that held something else (shorter, longer, deeper, shallower);
+            // interpreter lanes: the removed-element and the larger-maximum neighbours only
+            if !crate::tiny() || ni == 3 || ni == 4 {
+                clone_from_probe::<Tr>(rep, t2, t, &m, &rng, &o, built[0].2, what);
+            }
         }
     }
     // ... and onto an empty value
